@@ -13,6 +13,7 @@ import (
 	"fmt"
 	"io"
 	"reflect"
+	"runtime/debug"
 	"sort"
 	"strconv"
 	"strings"
@@ -1735,6 +1736,9 @@ func phaseConc(c *mc.Ctx, kindNames []string) {
 // ---------------------------------------------------------------------------------------
 
 func run(c *mc.Ctx) {
+	// tens of thousands of run-time generated types stay alive for the whole run and every bind allocates: with the
+	// default pacing the collector runs ten times a second over a heap of 100 MB and takes most of the machine
+	defer debug.SetGCPercent(debug.SetGCPercent(400))
 	t0 := time.Now()
 	lap := func(name string) {
 		c.Extra("wall_s_"+name, float64(int(time.Since(t0).Seconds()*10))/10)
